@@ -3,6 +3,7 @@
 
 mod checks;
 mod fixtures;
+mod pw;
 #[allow(dead_code)]
 mod srv;
 
